@@ -13,7 +13,7 @@ from earthkit.workflows import Cascade, fluent
 from earthkit.workflows.graph import Graph, deserialise, from_json, serialise, to_json
 
 from vf import common
-from vf.graphs import GraphSpec, dag_specs, freeze
+from vf.graphs import GraphSpec, dag_specs, freeze, with_double_edges
 
 PROP = "C12"
 
@@ -134,6 +134,8 @@ def run(ctx):
         specs += dag_specs(n, "unique", payloads=("alt",), outputs=("multi",), out_names=("b", "0"))
     for n in range(2, maxn + 1):  # producers with exactly one output that does not carry the default name
         specs += dag_specs(n, "unique", payloads=("alt",), outputs=("single-named",), out_names=("result",))
+    for n in range(2, min(maxn, 4) + 1):  # two inputs of one node wired to one upstream output
+        specs += [de for de in (with_double_edges(sp) for sp in dag_specs(n, "unique", payloads=("alt",), outputs=("default", "multi"))) if de is not None]
     for n in range(2, min(maxn, 4) + 1):  # node, output and input names that contain separators of every kind
         specs += dag_specs(n, "dotted", payloads=("alt",), outputs=("multi", "default"), out_names=("o.1", "a b"), input_style="in.")
     if not ctx.quick:
